@@ -17,6 +17,7 @@ Fixpoint infer_kind (G : env) (e : expr) : option ikind :=
   | EVar x => var_kind G x
   | EUn _ e1 => infer_kind G e1
   | EBin _ l r => match infer_kind G l with Some k => Some k | None => infer_kind G r end
+  | EIdx b _ _ _ _ => var_kind G b
   end.
 Definition kind_or_dint (o : option ikind) : ikind := match o with Some k => k | None => KDInt end.
 
@@ -40,6 +41,12 @@ Fixpoint reval (s : store) (k : ikind) (e : expr) : res Z :=
       | BMod => if b =? 0 then Fault FModZero else check k (Z.rem a b)
       | _ => Fault FTypeMismatch
       end
+  (* the index is evaluated in its declared kind; a value outside the declared bounds is an error (IEC 61131-3 2.4.1.2 /
+     docs/specs: IndexOutOfBounds), otherwise the element is read *)
+  | EIdx b lo n ki i =>
+      z <- reval s ki i ;;
+      if (z <? lo) || (lo + Z.of_nat n - 1 <? z) then Fault FIndexOOB
+      else v <- rd s (b + Z.to_nat (z - lo))%nat ;; match v with VInt _ z' => Ok z' | VBool _ => Fault FTypeMismatch end
   end.
 
 Fixpoint rbool (G : env) (s : store) (e : expr) : res bool :=
@@ -57,6 +64,7 @@ Fixpoint rbool (G : env) (s : store) (e : expr) : res bool :=
         let k := kind_or_dint (infer_kind G (EBin op l r)) in
         a <- reval s k l ;; b <- reval s k r ;; Ok (cmp_op op a b)
       else Fault FTypeMismatch
+  | EIdx _ _ _ _ _ => Fault FTypeMismatch
   end.
 
 Definition is_bool_expr (G : env) (e : expr) : bool :=
